@@ -538,7 +538,7 @@ def walk_rules(case, a):
         return "the walk did not run to completion (%s)" % (pieces[-1][:40] if pieces else "no output")
     if any(s is None for s in states):
         return "the walk panicked"
-    sec = ops[0][1]
+    sec = next(o for o in ops if o[0] == "open")[1]
     s = {"A": 0, "N": 1, "R": 2, "Q": -1}[sec]
     m0 = refdec.decode(_hex(init))
 
@@ -575,4 +575,6 @@ def walk_rules(case, a):
     key = {"A": "an", "N": "ns", "R": "ar", "Q": "q"}[sec]
     if total == 0 and states[-1]["view"].get(key) != "-":
         return "the emptied section does not read as absent"
+    if sec == "Q" and total == 0 and states[-1]["c"] != "-":
+        return "the question was deleted but the question accessors still report it (cached %s)" % states[-1]["c"][:60]
     return None
